@@ -131,6 +131,15 @@ func (r *Roles) Classifier(m Mode) func(ci *eng.CallInfo) *eng.Disposition {
 			if n := r.CallbackName(ci.Method); n != "" {
 				return &eng.Disposition{Act: eng.ActEvent, Class: "cb:" + n}
 			}
+			if m.SummariseCfg {
+				// configuration getters reached through any interface
+				switch ci.Method.Name() {
+				case "GetBatchConcurrency", "GetBatchErrorHandling":
+					if f := r.P.Method("BaseNode", ci.Method.Name()); f != nil && sigMatches(f.Signature, ci.Method.Type().(*types.Signature)) {
+						return &eng.Disposition{Act: eng.ActEvent, Class: "cfg:" + ci.Method.Name()}
+					}
+				}
+			}
 			rt := ci.Common.Value.Type()
 			if isNamed(rt, "context", "Context") {
 				switch ci.Method.Name() {
